@@ -113,7 +113,7 @@ def units(tier, seed):
         us.append(('fields', i, min(len(dates), i + step), tier))
     us.append(('compare',))
     us.append(('arith',))
-    for i in range(12 if tier == 'quick' else 64):
+    for i in range(12 if tier == 'quick' else 640):
         us.append(('random', i))
     return us
 
